@@ -132,3 +132,20 @@ prop("C10",
                   "effects of datagrams already queued in other tasks at the moment of the reset are not explored",
                   "the reset path itself (spa.disconnect) is not interrupted"],
      explanation="typestate ghosts for endpoints and tasks; CancelledError injected at a symbolic await ordinal in discover and in the whole connect handshake followed by the reset path; cancellation propagation of every task coroutine by loop cut")
+
+prop("C11",
+     level="proof",
+     budget={"quick": 60, "thorough": 300},
+     assumptions=["209 representative combinations stand for all 895: two combinations are in one class iff every item the facade reads (keys, shape AND position), the output / device / user-demand / error key lists are identical -- the facade code then executes identically for every block",
+                  "temperatures read as some finite non-negative float (exact values: C14)",
+                  "members that read the wall clock (Reminder.monitor, datetime.now) are havoc'd",
+                  "text renderings of symbolic values are opaque (SymText): only their evaluation without raising is claimed"],
+     explanation="exception-freedom (default postcondition) of the real GeckoAsyncFacade constructor and of every read-only member, per combination class with a symbolic 1024-byte block; guarded collections merge symbolic comprehension filters; decode contract proved per shape; watercare bytes 0..255 and arbitrary reminder records")
+
+prop("C12",
+     level="proof",
+     budget={"quick": 60, "thorough": 300},
+     assumptions=["combination classes as in C11; combinations on which no facade can be constructed (C11 known findings: no TempUnits / heater items missing) are outside this property's reach (precondition)",
+                  "guarded lists: constructors and loop bodies of guarded elements are executed speculatively (their side effects on other objects -- observer registration -- over-approximate); exceptions and returns under a guard fork on the guard",
+                  "only the async facade (GeckoAsyncFacade) is under contract; the legacy sync GeckoFacade.scan_outputs is not"],
+     explanation="presence guard of every element of the facade's pump / blower / light lists proved equivalent to the wiring condition of the statement, for every block; order, class, name, demand item and mode list from the device table; sensor lists; distinct keys and unique ids; lookup by key")
